@@ -254,3 +254,47 @@ Fixpoint align_passes (n : nat) (mis : option Q) (passes : list (nat -> vec)) (k
 (* total displacement applied to image i by one pass *)
 Definition displacement (n : nat) (mis : option Q) (shifts : nat -> vec) (i : nat) : vec :=
   applied_shift n mis shifts i.
+
+(* ------------------------------------------------------------------ the Gaussian KDE after the splat *)
+(* scipy.ndimage.gaussian_filter(pix_count, kde_sigma) (default mode="reflect") is, along each axis, the
+   correlation with a SYMMETRIC kernel (centre weight k0, weights ks = [k1; ...; kR] at distance 1..R on
+   both sides; scipy normalises it to k0 + 2 * (k1 + ... + kR) = 1) of the signal extended by
+   half-sample reflection (d c b a | a b c d | d c b a), i.e. the 2n-periodic even extension.
+   The weights themselves (exp(-t^2 / (2 sigma^2)) / sum) are parameters: nothing below depends on them. *)
+Definition reflect_ext (n : nat) (x : nat -> Q) (j : Z) : Q :=
+  let p := (2 * Z.of_nat n)%Z in
+  let m := (j mod p)%Z in
+  if (m <? Z.of_nat n)%Z then x (Z.to_nat m) else x (Z.to_nat (p - 1 - m)).
+
+Fixpoint taps (t : Z) (ks : list Q) (e : Z -> Q) (i : Z) : Q :=
+  match ks with
+  | [] => 0
+  | k :: ks' => k * (e (i + t)%Z + e (i - t)%Z) + taps (t + 1) ks' e i
+  end.
+
+Definition sym_filter (k0 : Q) (ks : list Q) (n : nat) (x : nat -> Q) (i : nat) : Q :=
+  k0 * reflect_ext n x (Z.of_nat i) + taps 1 ks (reflect_ext n x) (Z.of_nat i).
+
+Definition kernel_mass (k0 : Q) (ks : list Q) : Q := k0 + 2 * qsum ks.
+
+Definition fsum (n : nat) (f : nat -> Q) : Q := qsum (map f (seq 0 n)).
+
+(* a 2-D array as a function of (row, column); filtering along axis 0 and along axis 1 *)
+Definition filter_axis0 (k0 : Q) (ks : list Q) (R : nat) (a : nat -> nat -> Q) : nat -> nat -> Q :=
+  fun r c => sym_filter k0 ks R (fun r' => a r' c) r.
+Definition filter_axis1 (k0 : Q) (ks : list Q) (C : nat) (a : nat -> nat -> Q) : nat -> nat -> Q :=
+  fun r c => sym_filter k0 ks C (a r) c.
+Definition total2 (R C : nat) (a : nat -> nat -> Q) : Q := fsum R (fun r => fsum C (a r)).
+
+(* gaussian_filter on a 2-D array: axis 0, then axis 1 (kernels may differ) *)
+Definition kde2 (k0 : Q) (ks : list Q) (k0' : Q) (ks' : list Q) (R C : nat) (a : nat -> nat -> Q)
+  : nat -> nat -> Q :=
+  filter_axis1 k0' ks' C (filter_axis0 k0 ks R a).
+
+(* the weight map of bilinear_kde as a 2-D array (pix_count.reshape(output_shape)) *)
+Definition weight_map2 (rows cols : Z) (pts : list vec) : nat -> nat -> Q :=
+  fun r c => cell_weight (contributions rows cols pts) (Z.of_nat r * cols + Z.of_nat c)%Z.
+
+(* weights_warped as warp_image returns it: splat, then the KDE *)
+Definition kde_weights (k0 : Q) (ks : list Q) (rows cols : Z) (pts : list vec) : nat -> nat -> Q :=
+  kde2 k0 ks k0 ks (Z.to_nat rows) (Z.to_nat cols) (weight_map2 rows cols pts).
